@@ -8,15 +8,17 @@ import (
 )
 
 type anyEv struct {
-	Ev    string `json:"ev"`
-	LCM   int    `json:"lcm"`
-	Tag   string `json:"tag"`
-	Sid   int    `json:"sid"`
-	File  int    `json:"file"`
-	Mode  int    `json:"mode"`
-	Batch []Doc  `json:"batch"`
-	Ins   []int  `json:"ins"`
-	Drops []Drop `json:"drops"`
+	Ev     string        `json:"ev"`
+	LCM    int           `json:"lcm"`
+	Tag    string        `json:"tag"`
+	Sid    int           `json:"sid"`
+	File   int           `json:"file"`
+	Mode   int           `json:"mode"`
+	Batch  []Doc         `json:"batch"`
+	Ins    []int         `json:"ins"`
+	Drops  []Drop        `json:"drops"`
+	Visits []DvWalkVisit `json:"visits"`
+	Fs     []B           `json:"fs"`
 }
 
 func (l *Life) Rerun(path string) int {
@@ -58,6 +60,12 @@ func (l *Life) Rerun(path string) int {
 				}
 				l.Merge(ins, e.Drops, e.Mode)
 			}
+		case "dvwalk":
+			fs := make([]string, len(e.Fs))
+			for i, f := range e.Fs {
+				fs[i] = string(f)
+			}
+			l.DvWalkScript(fs, e.Visits)
 		case "close":
 			if h := l.segs[e.Sid]; h != nil {
 				l.Close(h)
